@@ -231,7 +231,7 @@ def run_history(seed, sc, ctx, workdir, replay_tapes=None, upto=None):
     finally:
         shutil.rmtree(cache_dir, ignore_errors=True)
     res["events_sha"] = hashlib.sha1("".join(shas).encode()).hexdigest()
-    if seed % 5 == 0:
+    if seed % 5 == 0 or ctx.get("want_sample"):
         res["sample"] = {"seed": seed, "mode": "cache", "spec_params": plan["A"],
                          "variant_field": plan["variant_field"], "steps": plan["steps"]}
     return res
